@@ -16,6 +16,13 @@ structure St where
 
 def fuel : Nat := 400
 
+/-! A heap is a function; a heap-valued model function is compiled as a function of one more argument, so whatever it
+    computes before returning its closure is recomputed at every read. The driver therefore re-materialises the heap into
+    an array after every operation (reads stay O(1) across a long history). -/
+def compactArr (h : Hp) (count : Nat) : Array (Node HT) := (Array.range count).map h
+def ofArr (arr : Array (Node HT)) : Hp := fun j => arr.getD j blank
+def compact (s : St) : St := { s with h := ofArr (compactArr s.h s.count) }
+
 def jScalar (j : Json) : Except String Scalar :=
   match j with
   | .null => pure .none
@@ -115,10 +122,16 @@ def handle (s : St) (line : String) : Except String (St × String) := do
     let k ← (← j.getObjVal? "k").getStr?
     let back ← (← j.getObjVal? "back").getNat?
     return finish s (opSetNoneNeg fuel s.h n k back SqlglotModel.Generated.C08.negativeIndexNormalised)
+  | "repair" =>
+    let n ← (← j.getObjVal? "n").getNat?
+    let s' : St := { s with h := simplifyRepair s.h n }
+    return (s', "ok|" ++ dump s')
   | "transform" =>
     let n ← (← j.getObjVal? "n").getNat?
     let f ← (← j.getObjVal? "fun").getStr?
-    match opTransform fuel (builtinFun fuel f) s.h s.count n with
+    let cp := (j.getObjVal? "copy" >>= (·.getBool?)).toOption.getD false
+    match (if cp then opTransformCopy fuel (builtinFun fuel f) s.h s.count n
+           else opTransform fuel (builtinFun fuel f) s.h s.count n) with
     | some (h', nx, _) => let s' : St := { s with h := h', count := nx }; return (s', "ok|" ++ dump s')
     | none => return (s, "fail|")
   | "rc" =>
@@ -159,7 +172,7 @@ partial def loop (h : IO.FS.Stream) (s : St) : IO Unit := do
   let line ← h.getLine
   if line.isEmpty then return ()
   match handle s line.trimAscii.toString with
-  | .ok (s', out) => IO.println out; loop h s'
+  | .ok (s', out) => IO.println out; loop h (compact s')
   | .error e => IO.println ("bad-op " ++ e ++ "|"); loop h s
 
 def main : IO Unit := do loop (← IO.getStdin) { h := empty, count := 0 }
